@@ -116,12 +116,15 @@ def check(ctx):
     ctx.ob("C11-R2", wd.fq, "the writer opens a dictionary with ':{' and closes it with '}'", ":{" in consts and "}" in consts, node=wd.node, construct="writer dictionary delimiters")
     kr = repo.fn("parser:kg_read")
     ok = False
-    for n in walk_local(kr.node):
-        if isinstance(n, ast.If):
-            t = src(n.test)
-            if t in ("aa == '{'", 'aa == "{"'):
-                rl = [c for s in n.body for c in calls_in(s) if callee_name(c) == "read_list"]
-                ok = bool(rl) and any(isinstance(a, ast.Constant) and a.value == "}" for c in rl for a in c.args)
+    for c in calls_in(kr.node):
+        if callee_name(c) == "read_list" and any(isinstance(a, ast.Constant) and a.value == "}" for a in c.args):
+            # ... reached only after the two characters ':' and '{' were seen (whatever the locals are called)
+            from ..flow import path_conditions, split_conj
+            facts = [x for t_, p_ in path_conditions(c, kr.node, check_kill=False) for x in split_conj(t_, p_)]     # control dependence (the cursor is re-bound by this very statement)
+            eqs = {e.comparators[0].value for e, pol in facts if pol and isinstance(e, ast.Compare) and len(e.ops) == 1 and isinstance(e.ops[0], ast.Eq) and
+                   isinstance(e.comparators[0], ast.Constant)}
+            eqs |= {e.args[1].value for e, pol in facts if pol and isinstance(e, ast.Call) and callee_name(e) == "safe_eq" and len(e.args) == 2 and isinstance(e.args[1], ast.Constant)}
+            ok = ok or ({":", "{"} <= eqs)
     ctx.instance("C11-R2", kr.fq)
     ctx.ob("C11-R2", kr.fq, "the reader's ':{' branch reads pairs up to '}'", ok, node=kr.node, construct="reader dictionary delimiters")
     ctx.rule("C11-R3", "the reader entry points (.r, .rs) pass the text unmodified, from offset 0, with the same reader options (negative numbers enabled)")
@@ -194,14 +197,26 @@ def _form_identity(ctx, repo):
                 out.add(e.func.attr)
         return out
     n_ret = 0
-    for r in [n for n in walk_local(f.node) if isinstance(n, ast.Return)]:
-        g = type_guards(r)
+    from ..flow import return_alts
+
+    def guards_of(facts):
+        out = set()
+        for e, pol in facts:
+            if not pol or not isinstance(e, ast.Call):
+                continue
+            if callee_name(e) == "isinstance" and len(e.args) == 2 and src(e.args[0]) == a:
+                out.add(src(e.args[1]))
+            elif isinstance(e.func, ast.Attribute) and e.func.attr.startswith("is_") and e.args and src(e.args[0]) == a:
+                out.add(e.func.attr)
+        return out
+    for facts, v, r in return_alts(f.node):
+        g = guards_of(facts)
         if g and not g <= {"str"}:
-            continue           # an arm for a non-string target
+            continue           # an alternative for a non-string target
         n_ret += 1
-        ok = isinstance(r.value, ast.Name) and r.value.id == b
-        ctx.ob("C11-R6", f.fq, f"the return reachable for a string target returns `{b}` itself", ok, node=r, construct=f"string Form returns {src(r.value)[:40] if r.value is not None else 'None'}",
-               msg=f"Form with a string target returns `{src(r.value) if r.value is not None else None}` instead of the text unchanged: x:$$x no longer matches x for strings the transformation touches (surrounding quotes, blanks, ...)")
+        ok = isinstance(v, ast.Name) and v.id == b
+        ctx.ob("C11-R6", f.fq, f"the result reachable for a string target is `{b}` itself", ok, node=r, construct=f"string Form returns {src(v)[:40] if v is not None else 'None'}",
+               msg=f"Form with a string target returns `{src(v) if v is not None else None}` instead of the text unchanged: x:$$x no longer matches x for strings the transformation touches (surrounding quotes, blanks, ...)")
     ctx.floor("C11-R6", "returns reachable for a string target", n_ret, 1)
     for n in walk_local(f.node):
         if isinstance(n, ast.Assign) and any(isinstance(t, ast.Name) and t.id == b for t in n.targets):
